@@ -34,8 +34,8 @@ Variable K : kinds.
 Variable rs : list rule.
 Variable toks : list rtok.
 Variable keywords soft_keywords : list string.
-Variable aeval : action -> list (string * value) -> value.
-Variable item_name : nitem -> option string.
+Variable aeval : alt -> list value -> list (string * value) -> nat -> nat -> option value.
+Variable item_name : alt -> nat -> option string.
 Variable forced_msg : item -> string.
 Variable F : string -> bool.
 Hypothesis HF : prefixed tbl rs F.
@@ -70,7 +70,7 @@ Theorem nullable_sem :
   (forall i p r, pitem i p r -> forall v, r = PSucc v p -> nvi i = true) /\
   (forall i p r, pstar i p r -> forall v vs, r = inl (v :: vs, p) -> nvi i = true) /\
   (forall s e p r, psep s e p r -> True) /\
-  (forall ns p vals env cut r, pseq ns p vals env cut r -> forall vals' env', r = SSucc vals' env' p ->
+  (forall a k ns p vals env cut r, pseq a k ns p vals env cut r -> forall vals' env', r = SSucc vals' env' p ->
      forallb (fun b => b) (map nvn ns) = true) /\
   (forall alts p r, palts alts p r -> forall v, r = PSucc v p -> existsb (fun b => b) (map nva alts) = true).
 Proof.
@@ -116,11 +116,12 @@ Proof.
   - (* sequence: failing item *) destruct cut; discriminate.
   - (* sequence: step *)
     assert (p1 = p).
-    { pose proof (proj1 mono _ _ _ H _ _ eq_refl). pose proof (proj1 (proj2 (proj2 (proj2 mono))) _ _ _ _ _ _ H1 _ _ _ eq_refl). lia. }
+    { pose proof (proj1 mono _ _ _ H _ _ eq_refl). pose proof (proj1 (proj2 (proj2 (proj2 mono))) _ _ _ _ _ _ _ _ H1 _ _ _ eq_refl). lia. }
     subst p1. cbn [map forallb]. rewrite (H2 _ _ eq_refl), andb_true_r.
     destruct n as [id nm ty it]. rewrite pv_nitem_eq, (special_spec "NamedItem" _ _ Hc0). cbn [ni_item] in *. exact (H0 _ eq_refl).
   - (* alternatives: this one matched *)
-    injection H1 as ? ?; subst. cbn [map existsb]. destruct a as [items act]. rewrite pv_alt_eq, (all_spec "Alt" "items" _ Hc1).
+    match goal with E : PSucc _ _ = PSucc _ _ |- _ => injection E as ? ?; subst end.
+    cbn [map existsb]. destruct a as [items act]. rewrite pv_alt_eq, (all_spec "Alt" "items" _ Hc1).
     cbn [alt_items] in *. rewrite (H0 _ _ eq_refl). reflexivity.
   - (* alternatives: a later one matched *)
     cbn [map existsb]. rewrite H2. apply orb_true_r.
